@@ -33,7 +33,8 @@ pub struct Case {
     pub sess: Session,
     pub pt: Bytes,
     pub aad: Bytes,
-    pub fault: Fault,
+    /// zero, one or two faults; two faults exercise the precedence between failure paths
+    pub faults: Vec<Fault>,
     /// use the recording SpyAead row (only meaningful when the suite's AEAD is ChaCha20Poly1305)
     pub spy: bool,
 }
@@ -60,21 +61,28 @@ fn check(case: &Case, obs: &mut Obs) -> Verdict {
     if d.is_spy() {
         obs.label("spy");
     }
-    obs.label(format!("fault:{}", format!("{:?}", case.fault).split([' ', '{']).next().unwrap_or("")));
+    for f in &case.faults {
+        obs.label(format!("fault:{}", format!("{:?}", f).split([' ', '{']).next().unwrap_or("")));
+    }
+    if case.faults.len() >= 2 {
+        obs.label("two-faults");
+    }
+    let has = |pred: &dyn Fn(&Fault) -> bool| case.faults.iter().any(|f| pred(f));
     let keys = sess.keys();
     let nt = suite_.aead.nt();
     let sealing = suite_.aead.sealing();
     let small = corpus::small_order_14().unwrap_or_default();
     let mut pk_r = keys.pk_r.clone();
-    let mut fault_applies = true;
-    match &case.fault {
-        Fault::SmallOrderRecipient { idx } if suite_.kem == KemId::X25519 && !small.is_empty() => {
+    let x = suite_.kem == KemId::X25519 && !small.is_empty();
+    // the small-order faults only exist for X25519; elsewhere they are dropped
+    let faults: Vec<Fault> = case.faults.iter().filter(|f| **f != Fault::None && (x || !matches!(f, Fault::SmallOrderRecipient { .. } | Fault::SmallOrderEnc { .. }))).cloned().collect();
+    for f in &faults {
+        if let Fault::SmallOrderRecipient { idx } = f {
             pk_r = small[*idx as usize % small.len()].to_vec();
         }
-        Fault::SmallOrderRecipient { .. } | Fault::SmallOrderEnc { .. } if suite_.kem != KemId::X25519 => fault_applies = false,
-        _ => {}
     }
-    obs.nontrivial = (case.fault != Fault::None && fault_applies) || (!sess.info.is_empty() && sess.info != case.aad);
+    let _ = &has;
+    obs.nontrivial = !faults.is_empty() || (!sess.info.is_empty() && sess.info != case.aad);
     let ms = sess.mode_s(&keys);
     let mr = sess.mode_r(&keys);
 
@@ -93,7 +101,7 @@ fn check(case: &Case, obs: &mut Obs) -> Verdict {
     if !sealing {
         // export-only: the setup half must succeed on both routes and the seal half must panic
         ensure!(a.is_err() == b.is_err(), "C14/seal/panic-mismatch", "export-only: single_shot_seal panicked={} but setup+seal panicked={}", a.is_err(), b.is_err());
-        if matches!(case.fault, Fault::SmallOrderRecipient { .. }) && fault_applies {
+        if faults.iter().any(|f| matches!(f, Fault::SmallOrderRecipient { .. })) {
             ensure!(a == b, "C14/seal/error-mismatch", "export-only with a bad recipient key: single-shot {:?} vs composed {:?}", a, b);
         }
         ensure!(rng_a.drawn() == rng_b.drawn(), "C14/seal/rng-draw-mismatch", "single_shot_seal drew {} RNG bytes, setup_sender+seal drew {}", rng_a.drawn(), rng_b.drawn());
@@ -163,17 +171,22 @@ fn check(case: &Case, obs: &mut Obs) -> Verdict {
     let mut ct_r = ct.clone();
     let mut info_r = sess.info.0.clone();
     let mut aad_r = case.aad.0.clone();
-    match &case.fault {
-        Fault::SmallOrderEnc { idx } if fault_applies && !small.is_empty() => enc_r = small[*idx as usize % small.len()].to_vec(),
-        Fault::Tamper { pos } => {
-            let i = pick_index(*pos, ct_r.len());
-            ct_r[i] ^= 1 << (pos % 8);
+    for f in &faults {
+        match f {
+            Fault::SmallOrderEnc { idx } => enc_r = small[*idx as usize % small.len()].to_vec(),
+            Fault::Tamper { pos } => {
+                if !ct_r.is_empty() {
+                    let i = pick_index(*pos, ct_r.len());
+                    ct_r[i] ^= 1 << (pos % 8);
+                }
+            }
+            Fault::Short { keep } => ct_r.truncate((*keep as usize) % (nt + 2).min(ct_r.len() + 1)),
+            Fault::WrongInfo => info_r.push(0),
+            Fault::WrongAad => aad_r.push(0),
+            _ => {}
         }
-        Fault::Short { keep } => ct_r.truncate((*keep as usize) % (nt + 2).min(ct_r.len() + 1)),
-        Fault::WrongInfo => info_r.push(0),
-        Fault::WrongAad => aad_r.push(0),
-        _ => {}
     }
+    let receiver_faults = faults.iter().any(|f| !matches!(f, Fault::SmallOrderRecipient { .. }));
     spy_clear();
     let e = d.single_shot_open(&mr, &keys.sk_r, &enc_r, &info_r, &ct_r, &aad_r);
     let spy_e = spy_view(spy_take());
@@ -186,13 +199,13 @@ fn check(case: &Case, obs: &mut Obs) -> Verdict {
     ensure!(
         e == f,
         "C14/open/result-mismatch",
-        "single_shot_open and setup_receiver+open disagree (fault {:?}): single-shot {:?} vs composed {:?} ({} mode {})",
-        case.fault, e.as_ref().map(|p| hex_short(p)), f.as_ref().map(|p| hex_short(p)), suite_.label(), sess.mode
+        "single_shot_open and setup_receiver+open disagree (faults {:?}): single-shot {:?} vs composed {:?} ({} mode {})",
+        faults, e.as_ref().map(|p| hex_short(p)), f.as_ref().map(|p| hex_short(p)), suite_.label(), sess.mode
     );
     if d.is_spy() {
         ensure!(spy_e == spy_f, "C14/open/aead-call-mismatch", "the AEAD calls of the two opening routes differ: {:?} vs {:?}", spy_e, spy_f);
     }
-    if case.fault == Fault::None || !fault_applies {
+    if !receiver_faults {
         ensure!(e.as_ref() == Ok(&case.pt.0), "C14/open/honest-rejected", "the honest single-shot ciphertext did not open to the plaintext: {:?}", e.as_ref().map(|p| hex_short(p)));
     } else {
         obs.label("receiver-failure-path");
@@ -210,7 +223,7 @@ fn check(case: &Case, obs: &mut Obs) -> Verdict {
         };
         spy_clear();
         obs.inner_checks += 3;
-        ensure!(g == h, "C14/open-in-place/result-mismatch", "single_shot_open_in_place_detached {:?} vs setup_receiver+open_in_place_detached {:?} (fault {:?})", g, h, case.fault);
+        ensure!(g == h, "C14/open-in-place/result-mismatch", "single_shot_open_in_place_detached {:?} vs setup_receiver+open_in_place_detached {:?} (faults {:?})", g, h, faults);
         // allocating open accepts exactly what the in-place open accepts for the same split
         match (&e, &g) {
             (Ok(p), Ok(())) => ensure!(p == &buf_g, "C14/alloc-vs-in-place/plaintext", "open() returned {} but the in-place open left {}", hex_short(p), hex_short(&buf_g)),
@@ -227,8 +240,8 @@ impl Property for P {
         "C14"
     }
     fn rule(&self) -> String {
-        "Generated: (suite of 48 or the recording SpyAead row, mode, session inputs, RNG stream, pt, aad, fault in {none, small-order recipient key, small-order encapsulated key, tampered bit, short ciphertext (0..Nt+1 bytes), wrong info, wrong aad}). \
-         Swept: 48x4 cells x {no fault, tamper, short}. \
+        "Generated: (suite of 48 or the recording SpyAead row, mode, session inputs, RNG stream, pt, aad, 0..=2 faults from {small-order recipient key, small-order encapsulated key, tampered bit, short ciphertext (0..Nt+1 bytes), wrong info, wrong aad}; two faults exercise the precedence between failure paths). \
+         Swept: 48x4 cells x {no fault, tamper, short}; all 14 small-order keys x 4 modes alone and combined with a short ciphertext. \
          Oracle: with identical RNG streams single_shot_seal == setup_sender;seal in enc, ciphertext, error and bytes drawn (likewise in-place: buffer and tag); single_shot_open[_in_place_detached] == setup_receiver;open[...] in result and error; seal(pt) == in-place body || tag; open(c||t) Ok(p) iff open_in_place(c,t) Ok leaving p; with SpyAead the recorded (nonce, aad, len) of both routes are identical. \
          Non-trivial: a failure path, or non-empty info != aad."
             .into()
@@ -246,13 +259,14 @@ impl Property for P {
             1 => Just(Fault::WrongInfo),
             1 => Just(Fault::WrongAad),
         ];
-        (gen::session_any(), gen::bytes(400), gen::bytes(200), fault, any::<bool>())
-            .prop_map(|(mut sess, pt, aad, fault, spy)| {
+        (gen::session_any(), gen::bytes(400), gen::bytes(200), proptest::collection::vec(fault, 0..=2), any::<bool>())
+            .prop_map(|(mut sess, pt, aad, mut faults, spy)| {
+                faults.retain(|f| *f != Fault::None);
                 // the small-order faults only exist for X25519: steer those cases there
-                if matches!(fault, Fault::SmallOrderRecipient { .. } | Fault::SmallOrderEnc { .. }) {
+                if faults.iter().any(|f| matches!(f, Fault::SmallOrderRecipient { .. } | Fault::SmallOrderEnc { .. })) {
                     sess.suite.kem = KemId::X25519;
                 }
-                Case { sess, pt, aad, fault, spy }
+                Case { sess, pt, aad, faults, spy }
             })
             .boxed()
     }
@@ -263,15 +277,18 @@ impl Property for P {
         let mut cells = Vec::new();
         for (s, m) in gen::all_cells(&Suite::all48()) {
             for (k, fault) in [Fault::None, Fault::Tamper { pos: 40000 }, Fault::Short { keep: 15 }].into_iter().enumerate() {
-                cells.push(Case { sess: gen::cell_session(s, m, 14), pt: Bytes(gen::fill(33, 5, 14)), aad: Bytes(gen::fill(9, 5, 15)), fault, spy: k == 0 && m == 1 });
+                cells.push(Case { sess: gen::cell_session(s, m, 14), pt: Bytes(gen::fill(33, 5, 14)), aad: Bytes(gen::fill(9, 5, 15)), faults: vec![fault], spy: k == 0 && m == 1 });
             }
         }
         let mut so = Vec::new();
         for idx in 0..14u8 {
             for m in 0..4u8 {
                 let s = Suite { kem: KemId::X25519, kdf: crate::refmodel::hpke_ref::KdfId::Sha256, aead: AeadId::ChaCha };
-                so.push(Case { sess: gen::cell_session(s, m, 17), pt: Bytes(b"pt".to_vec()), aad: Bytes(b"aad".to_vec()), fault: Fault::SmallOrderRecipient { idx }, spy: false });
-                so.push(Case { sess: gen::cell_session(s, m, 17), pt: Bytes(b"pt".to_vec()), aad: Bytes(b"aad".to_vec()), fault: Fault::SmallOrderEnc { idx }, spy: false });
+                so.push(Case { sess: gen::cell_session(s, m, 17), pt: Bytes(b"pt".to_vec()), aad: Bytes(b"aad".to_vec()), faults: vec![Fault::SmallOrderRecipient { idx }], spy: false });
+                so.push(Case { sess: gen::cell_session(s, m, 17), pt: Bytes(b"pt".to_vec()), aad: Bytes(b"aad".to_vec()), faults: vec![Fault::SmallOrderEnc { idx }], spy: false });
+                for keep in [0u8, 7, 15] {
+                    so.push(Case { sess: gen::cell_session(s, m, 17), pt: Bytes(b"pt".to_vec()), aad: Bytes(b"aad".to_vec()), faults: vec![Fault::SmallOrderEnc { idx }, Fault::Short { keep }], spy: false });
+                }
             }
         }
         vec![("suite_x_mode_x_fault_cells".into(), cells), ("small_order_failure_paths".into(), so)]
